@@ -21,7 +21,7 @@
     fresh host). *)
 From Coq Require Import List NArith Bool.
 From TG.Model Require Import Includes Host HostInst.
-From TG.Proofs Require Import IncludesGraph IncludesRefine HostHistory HostTheorems HostExamples.
+From TG.Proofs Require Import IncludesGraph IncludesRefine HostHistory HostTheorems HostFrame HostExamples.
 Import ListNotations.
 Local Open Scope nat_scope.
 
@@ -37,6 +37,21 @@ Theorem C07_history_independent :
   exists V, view st1 = Some (p, V) /\
             pcollect (truth w (h ++ [(p, c)])) (extra w) fuel1 [p] [] = Done V.
 Proof. exact (@history_independent). Qed.
+
+(** frame, for the MODELLED derived queries (the real handlers: assumed + tested): read through the
+    id table - every FileId translated to its path - the workspace, the indexer's whole event trace
+    (files entered, declarations, not-found diagnostics; any fuel, including the failing outcomes) and
+    document_link of every workspace file are the same after the history and after the fresh start *)
+Theorem C07_queries :
+  forall (path istr : Type) (PA : PathAlg path istr) (PAok : PathAlgOk path istr)
+         (w : world path istr) h p c fuel1 fuel2 (st1 st2 : @state path istr),
+  run fuel1 w st_init (h ++ [(p, c)]) = Done st1 ->
+  run fuel2 (overlay w (h ++ [(p, c)])) st_init [(p, c)] = Done st2 ->
+  workspace_by_path st1 = workspace_by_path st2 /\
+  (forall fuelq, index_by_path st1 fuelq = index_by_path st2 fuelq) /\
+  (forall q, In q (match workspace_by_path st1 with Some l => l | None => [] end) ->
+             links_by_path st1 q = links_by_path st2 q).
+Proof. exact (@queries_history_independent). Qed.
 
 (** non-vacuity: a history with several edits of an included file, a removed include and two root
     switches; both runs return; the FileIds differ, the views agree by the theorem *)
@@ -68,4 +83,5 @@ Check C07_history_independent :
             pcollect (truth w (h ++ [(p, c)])) (extra w) fuel1 [p] [] = Done V.
 
 Print Assumptions C07_history_independent.
+Print Assumptions C07_queries.
 Print Assumptions C07_raw_api_refuted.
